@@ -4,7 +4,10 @@
 (* document D must equal the value the definition gives on the physically stripped document.       *)
 (*   [e |-> "Obs", doc, ctx, decls, expr (AST), res (value; node ids in the ORIGINAL numbering)]  *)
 (*   [e |-> "Copy", doc, decls, flat (the copied result tree, flattened)]                          *)
-EXTENDS Strip, Json, IOUtils
+(*   [e |-> "Num", doc, ctx, decls, instr, fmt, out]  the string xsl:number wrote for node ctx      *)
+(* Obs events carry the xsl:key declarations of the stylesheet (keys): key() is evaluated on the   *)
+(* stripped document too.                                                                           *)
+EXTENDS Strip, Numbering, Json, IOUtils
 VARIABLES l, st, failed, done
 
 Forest == TLCGet(2)
@@ -23,8 +26,16 @@ C13Step(s, ev) ==
        IN [ok |-> same, st |-> s, cont |-> TRUE, drop |-> FALSE,
            msg |-> "copy of the stripped document differs: stripped ids " \o ToString(S)]
   ELSE IF ev.ctx \in S THEN [ok |-> TRUE, st |-> s, drop |-> TRUE, msg |-> ""]     \* the context node itself is stripped: not observable
-  ELSE LET n2 == <<1, NewId(keep, ev.ctx), 0>>
+  ELSE IF ev.e = "Num"
+  THEN LET n2 == <<1, NewId(keep, ev.ctx), 0>>
            c == [f |-> <<D2>>, n |-> n2, pos |-> 1, size |-> 1, vars |-> <<>>, cur |-> n2, keys |-> <<>>]
+           lst == NumberList(ev.instr, n2, c)
+           want == FormatList(lst, ev.fmt)
+       IN IF lst = <<0>> THEN [ok |-> TRUE, st |-> s, drop |-> TRUE, msg |-> ""]     \* nothing counted: C17's subject (known finding there), not an observation of stripping
+          ELSE [ok |-> want = ev.out, st |-> s, cont |-> TRUE, drop |-> FALSE,
+           msg |-> "stripped " \o ToString(S) \o " want " \o ToString(want) \o " got " \o ToString(ev.out)]
+  ELSE LET n2 == <<1, NewId(keep, ev.ctx), 0>>
+           c == [f |-> <<D2>>, n |-> n2, pos |-> 1, size |-> 1, vars |-> <<>>, cur |-> n2, keys |-> ev.keys]
            v == Eval(ev.expr, c)
            \* map the result back to the original numbering
            want == IF v.t = "ns" THEN NS({<<ev.doc, keep[x[2]], 0>> : x \in v.v}) ELSE v
